@@ -392,6 +392,7 @@ func run(c *hlib.Ctx) {
 	runObs3(c, 6*n)
 	runObs2(c, 3*n)
 	runSurface(c, 3*n)
+	runOnSurface(c, 2*n)
 	runParity(c, 3*n)
 	runExact(c, n)
 	runBits(c, n)
